@@ -159,6 +159,9 @@ def records_for(cfg, path, what):
                             d.mkdir()
                             do_export(drv.tracks, fmt, d, node_ids=set(sel))
                             read_subset(cfg, drv.tracks, fmt, d, rec)
+                            if fmt == "csv" and drv.shift:
+                                # the tif is labelled by REAL track ids (= model id - shift)
+                                rec["out_seg"] = [v + drv.shift if v else 0 for v in rec["out_seg"]]
                             rec["out_nodes"] = [n + drv.nshift for n in rec["out_nodes"]]
                             rec["out_edges"] = [[u + drv.nshift, v + drv.nshift] for u, v in rec["out_edges"]]
                         except Exception as e:  # noqa: BLE001
